@@ -13,7 +13,10 @@ RULE = ("Histories (operation lists drawn by Hypothesis) over ONE prepared Claus
         "(deterministic, no target) | fresh target; queries may repeat and overlap, ground and non-ground. Invariant "
         "after every step: evaluating the shared target gives every query grounded so far the probabilities (and the "
         "same error class) obtained by grounding that query ALONE in a fresh target with the same evidence; "
-        "engine.query answers equal those on a freshly prepared database. Non-trivial: >= 3 grounding steps on one "
+        "engine.query answers equal those on a freshly prepared database. Any grounding step may use a NEW engine "
+        "instance on the same database and target (fresh_engine). Sub-check collect-wrappers adds two clauses "
+        "w_i(L) :- all|findall(X, p(X,..), L) over smaller programs and starts every history by grounding both "
+        "wrappers through different engine instances. Non-trivial: >= 3 grounding steps on one "
         "target, at least two of them queries on derived predicates. Distinct = distinct (program, history).")
 ASSUMPTIONS = ["differential oracle: shared target vs fresh single-query target of the same engine code",
                "probability mode (zero-probability instances dropped)"]
@@ -68,6 +71,8 @@ def check(case):
     prog = case["prog"]
     feats = gp.features(prog)
     src = sem.render_program(prog)
+    if any(s[0] == "raw" for s in prog):
+        feats.add("all/3-wrapper")
     plrun.reset_state()
     try:
         eng = DefaultEngine()
@@ -80,6 +85,7 @@ def check(case):
         if s[0] in ("rule", "ad") and s[2]:
             for h in ([s[1]] if s[0] == "rule" else [a for _, a in s[1]]):
                 derived.add((h[0], len(h[1])))
+    engines_ = [eng]
     target = None
     evidence = []  # (atom, val)
     queries = []  # atoms
@@ -123,11 +129,18 @@ def check(case):
                     step, sem.render_atom(atom), r1, r2))
                 break
             continue
+        # a grounding step may be made by another engine instance on the same prepared database and the same
+        # shared target (successive ground()/create_from(target=...) calls each build a fresh engine)
+        step_eng = eng
+        if op[-1] == "fresh_engine":
+            step_eng = DefaultEngine()
+            engines_.append(step_eng)
+            feats.add("fresh-engine-step")
         if kind == "q":
-            r = _ground(eng, db, target, _term(atom), LogicFormula.LABEL_QUERY)
+            r = _ground(step_eng, db, target, _term(atom), LogicFormula.LABEL_QUERY)
             label = "query"
         else:
-            r = _ground(eng, db, target, _term(atom),
+            r = _ground(step_eng, db, target, _term(atom),
                         LogicFormula.LABEL_EVIDENCE_POS if op[2] else LogicFormula.LABEL_EVIDENCE_NEG)
         if r[0] == "resource":
             return Outcome(inconclusive=r[1], features=feats)
@@ -167,14 +180,14 @@ def check(case):
             ft = None
             ok = True
             for (ea, ev) in evidence:
-                fr = _ground(eng, db, ft, _term(ea), LogicFormula.LABEL_EVIDENCE_POS if ev else LogicFormula.LABEL_EVIDENCE_NEG)
+                fr = _ground(DefaultEngine(), db, ft, _term(ea), LogicFormula.LABEL_EVIDENCE_POS if ev else LogicFormula.LABEL_EVIDENCE_NEG)
                 if fr[0] != "ok":
                     ok = False
                     break
                 ft = fr[1]
             if not ok:
                 break
-            fr = _ground(eng, db, ft, _term(qa), LogicFormula.LABEL_QUERY)
+            fr = _ground(DefaultEngine(), db, ft, _term(qa), LogicFormula.LABEL_QUERY)
             if fr[0] != "ok":
                 break
             alone = _evaluate(fr[1])
@@ -218,36 +231,57 @@ def _only_query_with_pred(atom, queries):
     return sum(1 for q in queries if q[0] == atom[0]) == 1
 
 
-@st.composite
-def _cases(draw):
-    prog = draw(gp.programs(min_queries=3, allow_neg_query=False))
-    base = [s for s in prog if s[0] not in ("query", "evidence")]
-    qpool = [s[1] for s in prog if s[0] == "query"]
-    epool = [s[1] for s in prog if s[0] == "evidence"]
-    # more ground atoms over the program's predicates
-    preds = sorted(set((s[1][0], len(s[1][1])) for s in base if s[0] in ("fact", "rule", "rule_or")) |
-                   set((s[2][0], len(s[2][1])) for s in base if s[0] == "pfact") |
-                   set((a[0], len(a[1])) for s in base if s[0] == "ad" for _, a in s[1]))
-    nextra = draw(st.integers(0, 3))
-    for _ in range(nextra):
-        p = draw(st.sampled_from(preds))
-        atom = [p[0], [["a", draw(st.sampled_from(["a", "b"]))] for _ in range(p[1])]]
-        (qpool if draw(st.booleans()) else epool).append(atom)
-    ops = []
-    n = draw(st.integers(3, 9))
-    for _ in range(n):
-        k = draw(st.sampled_from(["q", "q", "q", "q", "q", "q", "e", "e", "det", "fresh"]))
-        if k == "fresh":
-            ops.append(["fresh"])
-        elif k == "e":
-            if not epool:
-                continue
-            a = draw(st.sampled_from(epool))
-            ops.append(["e", a, draw(st.booleans())])
+def _make_cases(wrappers):
+    @st.composite
+    def _cases(draw):
+        if wrappers:
+            # smaller programs: all/3 enumerates every subset of the probabilistic answers of the collected goal
+            prog = draw(gp.programs(min_queries=2, allow_neg_query=False, max_preds=3, max_clauses=2, max_consts=2,
+                                    allow_body_or=False))
         else:
-            a = draw(st.sampled_from(qpool))
-            ops.append([k, a])
-    return {"prog": base, "ops": ops}
+            prog = draw(gp.programs(min_queries=3, allow_neg_query=False))
+        base = [s for s in prog if s[0] not in ("query", "evidence")]
+        qpool = [s[1] for s in prog if s[0] == "query"]
+        epool = [s[1] for s in prog if s[0] == "evidence"]
+        # more ground atoms over the program's predicates
+        preds = sorted(set((s[1][0], len(s[1][1])) for s in base if s[0] in ("fact", "rule", "rule_or")) |
+                       set((s[2][0], len(s[2][1])) for s in base if s[0] == "pfact") |
+                       set((a[0], len(a[1])) for s in base if s[0] == "ad" for _, a in s[1]))
+        nextra = draw(st.integers(0, 3))
+        for _ in range(nextra):
+            p = draw(st.sampled_from(preds))
+            atom = [p[0], [["a", draw(st.sampled_from(["a", "b"]))] for _ in range(p[1])]]
+            (qpool if draw(st.booleans()) else epool).append(atom)
+        ops = []
+        wrappable = [p for p in preds if p[1] >= 1]
+        if wrappers and wrappable:
+            # all/3 and findall/3 wrappers over the program's predicates (their helper goals are excluded from
+            # tabling); two wrappers are grounded into one target by two engine instances, each of which numbers
+            # its helper goals from 1
+            for wi in range(2):
+                p = draw(st.sampled_from(wrappable))
+                args = ",".join(["X"] + ["_"] * (p[1] - 1))
+                which = draw(st.sampled_from(["all", "all", "findall"]))
+                base.append(["raw", "w%d(L) :- %s(X, %s(%s), L)." % (wi, which, p[0], args)])
+                qpool.append(["w%d" % wi, [["v", "L"]]])
+            first = draw(st.integers(0, 1))
+            ops.append(["q", ["w%d" % first, [["v", "L"]]]] + (["fresh_engine"] if draw(st.booleans()) else []))
+            ops.append(["q", ["w%d" % (1 - first), [["v", "L"]]], "fresh_engine"])
+        n = draw(st.integers(1, 5) if wrappers else st.integers(3, 9))
+        for _ in range(n):
+            k = draw(st.sampled_from(["q", "q", "q", "q", "q", "q", "e", "e", "det", "fresh"]))
+            if k == "fresh":
+                ops.append(["fresh"])
+            elif k == "e":
+                if not epool:
+                    continue
+                a = draw(st.sampled_from(epool))
+                ops.append(["e", a, draw(st.booleans())] + (["fresh_engine"] if draw(st.integers(0, 2)) == 0 else []))
+            else:
+                a = draw(st.sampled_from(qpool))
+                ops.append([k, a] + (["fresh_engine"] if k == "q" and draw(st.integers(0, 1)) == 0 else []))
+        return {"prog": base, "ops": ops}
+    return _cases
 
 
 KNOWN_CLASSES = {
@@ -260,7 +294,11 @@ KNOWN_CLASSES = {
         for op in case["ops"]),
 }
 
+_render = lambda c: {"program": sem.render_program(c["prog"]), "ops": c["ops"]}
+
 SUBCHECKS = [
-    SubCheck("histories", check, strategy=_cases, budget={"quick": 500, "thorough": 8000},
-             timeout={"quick": 20, "thorough": 60}, render=lambda c: {"program": sem.render_program(c["prog"]), "ops": c["ops"]}),
+    SubCheck("histories", check, strategy=_make_cases(False), budget={"quick": 400, "thorough": 6000},
+             timeout={"quick": 20, "thorough": 60}, render=_render),
+    SubCheck("collect-wrappers", check, strategy=_make_cases(True), budget={"quick": 250, "thorough": 3000},
+             timeout={"quick": 10, "thorough": 30}, render=_render),
 ]
